@@ -156,6 +156,7 @@ def mixed_dataset(rng, missing=False, prevalence=None):
     Y = (rng.uniform(size=n) < py).astype(float)
     df = pd.DataFrame({'L1': L1, 'L2': L2, 'x': x, 'A': A, 'Y': Y})
     df['w'] = rng.integers(1, 4, size=n)
+    df['wf'] = np.round(rng.uniform(0.3, 2.7, size=n), 2)      # fractional, not mean one, varying inside cells
     if missing:
         pm = 1 / (1 + np.exp(-(-1.6 + 0.6 * A + 0.5 * L2 + 0.4 * x)))
         df.loc[rng.uniform(size=n) < pm, 'Y'] = np.nan
@@ -193,8 +194,12 @@ def iptw_cell(chk, drv, df, cfg, refs, dsid, rec):
     p, q = clip(p_raw, bound), clip(q_raw, bound)
     clipped = bool(np.any(p != p_raw))
     cols = ['L1', 'L2', 'x', 'A', 'Y'] + ([wcol] if wcol else [])
-    ipt = IPTW(df[cols], treatment='A', outcome='Y', weights=wcol, standardize=tgt)
-    ipt.treatment_model(denom, model_numerator=numer, stabilized=stab, bound=bound, print_results=False)
+    if cfg.get('positional'):
+        ipt = IPTW(df[cols], 'A', 'Y', wcol, tgt)
+        ipt.treatment_model(denom, numer, stab, bound, False)
+    else:
+        ipt = IPTW(df[cols], treatment='A', outcome='Y', weights=wcol, standardize=tgt)
+        ipt.treatment_model(denom, model_numerator=numer, stabilized=stab, bound=bound, print_results=False)
     got = np.asarray(ipt.iptw, dtype=float)
     want = iptw_documented(df['A'].values, p, q, stab, tgt)
     nontriv = len(set(np.round(got, 9))) > 2 and (clipped or not bound)
@@ -412,6 +417,8 @@ def run_iptw_family(chk, drv, rng, tier):
     nds = 6 if tier == 'quick' else 24
     for i in range(nds):
         df = relabel(mixed_dataset(rng), rng, ['default', 'shifted', 'shuffled'][i % 3])
+        if i % 4 == 2:
+            df['x'] = df['x'] * 100.0           # ill-scaled continuous covariate
         rec = {'frame': gen.frame_record(df), 'n': len(df)}
         dsid = frame_hash(df)
         cache = {}
@@ -421,18 +428,19 @@ def run_iptw_family(chk, drv, rng, tier):
                 cache[(formula, wcol)] = ref_fit(chk, formula, df, wcol)
             return cache[(formula, wcol)]
         denom = DENOMS[i % len(DENOMS)]
-        for wcol in (None, 'w'):
+        wopts = (None, 'w') if i % 2 == 0 else (None, 'wf')
+        for wcol in wopts:
             for tgt in ('population', 'exposed', 'unexposed'):
                 for stab, numer in ((False, '1'), (True, '1'), (True, 'C(L1)')):
                     for bound in BOUNDS:
                         cfg = dict(weights=wcol, standardize=tgt, stabilized=stab, numerator=numer, bound=bound,
-                                   denominator=denom)
+                                   denominator=denom, positional=bool(i % 3 == 1))
                         guard(chk, 'IPTW', cfg, rec, iptw_cell, drv, df, cfg, refs, dsid, rec)
         # stochastic plans
         k1 = int(df['L1'].nunique())
         conds = [["df['L1']==%d" % v for v in range(k1)], ["df['L2']==1", "df['L2']==0"],
                  ["(df['L2']==1) & (df['x']>0)", "(df['L2']==1) & (df['x']<=0)", "df['L2']==0"]]
-        for wcol in (None, 'w'):
+        for wcol in wopts:
             for p in (0.0, 0.25, 0.5, 0.8, 1.0):
                 cfg = dict(weights=wcol, p=p, conditional=None, denominator=denom)
                 guard(chk, 'StochasticIPTW', cfg, rec, stoch_cell, drv, df, cfg, refs, dsid, rec)
@@ -452,7 +460,7 @@ def run_iptw_family(chk, drv, rng, tier):
                 cache[(formula, wcol)] = ref_fit(chk, formula, df, wcol)
             return cache[(formula, wcol)]
         for j, steps in enumerate(histories(miss)):
-            cfg = dict(weights=('w' if (i + j) % 2 else None), standardize=['population', 'exposed', 'unexposed'][j % 3],
+            cfg = dict(weights=[None, 'w', 'wf'][(i + j) % 3], standardize=['population', 'exposed', 'unexposed'][j % 3],
                        steps=steps)
             guard(chk, 'IPTW-history', cfg, rec, iptw_history_cell, drv, df, cfg, refs, frame_hash(df), rec)
     # rare / near-universal treatment: the marginal numerator probability itself lies outside the truncation bounds
@@ -501,7 +509,7 @@ def run_iptw_family(chk, drv, rng, tier):
         for stab, numer in ((False, None), (True, None), (True, 'A + L2')):
             for bound in (False, 0.25, [0.3, 0.8]):
                 cfg = dict(stabilized=stab, numerator=numer, bound=bound, denominator='A + L2 + x',
-                           weights=('w' if i % 2 else None))
+                           weights=[None, 'w', 'wf'][i % 3])
                 guard(chk, 'IPTW.missing_model', cfg, rec, ipmw_outcome_cell, drv, df, cfg, None, frame_hash(df), rec)
 
 
@@ -577,7 +585,10 @@ def ipmw_cell(chk, drv, df, cfg, dsid, rec):
     calls = []
     mod, orig = wrap_propensity(calls)
     try:
-        ip = IPMW(df, missing_variable=(mv[0] if single else mv), stabilized=stab, monotone=True)
+        if cfg.get('positional'):
+            ip = IPMW(df, (mv[0] if single else mv), stab, True)
+        else:
+            ip = IPMW(df, missing_variable=(mv[0] if single else mv), stabilized=stab, monotone=True)
         if single:
             ip.regression_models(models_d[0], model_numerator=models_n[0], print_results=False)
         else:
@@ -681,6 +692,8 @@ def run_ipmw(chk, drv, rng, tier):
                     for how in (idxs if tier == 'thorough' else [idxs[t % 3]]):
                         t += 1
                         df = relabel(base, rng, how)
+                        if t % 2 == 0:     # an unused column with NaN in the caller's frame
+                            df['junk'] = np.where(rng.uniform(size=len(df)) < 0.3, np.nan, 2.5)
                         rec = {'frame': gen.frame_record(df), 'n': len(df)}
                         md_all = ['L + x', 'L + B', 'x + C'][:k]
                         mn_all = ['1', 'L', 'L'][:k]
@@ -691,15 +704,17 @@ def run_ipmw(chk, drv, rng, tier):
                             variants.append((['L + x', 'L'], ['1'], False))    # fewer models than variables: last repeated
                         for md, mn, single in variants:
                             cfg = dict(k=k, pattern=list(pattern), stabilized=stab, denominators=md, numerators=mn,
-                                       single=single, index=how)
+                                       single=single, index=how, positional=bool(t % 3 == 0))
                             guard(chk, 'IPMW', cfg, rec, ipmw_cell, drv, df, cfg, frame_hash(df), rec)
     ipmw_malformed(chk, drv, rng)
 
 
 # ------------------------------------------------------------------------------------------- IPCW
-def long_dataset(rng, frac_last=True):
+def long_dataset(rng, frac_last=True, frac_max=False):
+    """frac_max: the administrative end of follow-up (the maximum time) is fractional, e.g. 4.5"""
     nsub = int(rng.integers(25, 70))
     tau = int(rng.integers(3, 8))
+    tend = tau - 1 + float(rng.choice([0.5, 0.25, 0.8])) if frac_max else float(tau)
     ids = rng.choice(np.arange(1, 400), size=nsub, replace=False)
     rows = []
     for i in ids:
@@ -707,17 +722,17 @@ def long_dataset(rng, frac_last=True):
         T = int(rng.integers(1, tau + 1))
         ev = int(rng.uniform() < 0.35)
         for t in range(1, T + 1):
-            tt = float(t)
+            tt = float(t) if t < tau else tend
             if t == T and frac_last and T < tau and rng.uniform() < 0.3:
                 tt = t - 1 + float(np.round(rng.uniform(0.2, 0.9), 2))
             rows.append((int(i), tt, int(ev and t == T), L, float(np.round(rng.normal(0.2 * L + 0.1 * t, 1), 3))))
     df = pd.DataFrame(rows, columns=['id', 't', 'd', 'L', 'x'])
     # make sure the maximum time is reached by somebody (administrative censoring: uncensored by the documented rule)
-    if df['t'].max() < tau:
+    if df['t'].max() < tend:
         i = int(ids[0])
         df = df[df['id'] != i]
         L = int(rng.integers(0, 2))
-        extra = [(i, float(t), 0, L, float(np.round(rng.normal(), 3))) for t in range(1, tau + 1)]
+        extra = [(i, float(t) if t < tau else tend, 0, L, float(np.round(rng.normal(), 3))) for t in range(1, tau + 1)]
         df = pd.concat([df, pd.DataFrame(extra, columns=df.columns)], ignore_index=True)
     return df.sort_values(['id', 't']).reset_index(drop=True)
 
@@ -733,13 +748,13 @@ def ipcw_cell(chk, drv, df, cfg, dsid, rec):
     from zepid.causal.ipw import IPCW
     case = {'kind': 'IPCW', 'cfg': cfg, 'data': rec}
     unc = uncensored_documented(df)
-    ipc = IPCW(df, idvar='id', time='t', event='d')
+    ipc = IPCW(df, 'id', 't', 'd') if cfg.get('positional') else IPCW(df, idvar='id', time='t', event='d')
     got_unc = ipc.df['__uncensored__']
     ncens = int((unc == 0).sum())
     chk.case(case, (dsid, 'IPCW', repr(sorted(cfg.items(), key=str))) if ncens >= 1 else None,
              sample={'kind': 'IPCW', 'cfg': cfg, 'rows': len(df), 'subjects': int(df['id'].nunique()), 'censored': ncens}
              if chk.evals % 5 == 0 else None)
-    chk.count('IPCW/long/%s/%s' % (cfg['order'], cfg['index']))
+    chk.count('IPCW/long/%s/%s%s' % (cfg['order'], cfg['index'], '/fractional-max' if cfg.get('fractional_max') else ''))
     # D: the indicator, per row label
     chk.d(sorted(got_unc.index) == sorted(df.index) and
           np.array_equal(got_unc.reindex(df.index).values.astype(int), unc),
@@ -794,15 +809,21 @@ def ipcw_cell(chk, drv, df, cfg, dsid, rec):
         chk.k(ok2, 'IPCW stored probabilities = reference pooled-logistic ML predictions', case)
 
 
-def flat_dataset(rng):
+def flat_dataset(rng, frac_max=False):
+    """frac_max: the maximum follow-up time is fractional (e.g. 4.5); some subjects are then administratively censored at
+    it, and some are censored exactly at its integer part"""
     nsub = int(rng.integers(25, 60))
     tau = int(rng.integers(3, 7))
+    tend = tau - 1 + float(rng.choice([0.5, 0.3, 0.9])) if frac_max else float(tau)
     ids = rng.choice(np.arange(1, 300), size=nsub, replace=False)
     T = np.where(rng.uniform(size=nsub) < 0.5, rng.integers(1, tau + 1, size=nsub).astype(float),
                  np.round(rng.uniform(0.2, tau, size=nsub), 1))
-    T[0] = float(tau)
+    T = np.minimum(T, tend)
     d = (rng.uniform(size=nsub) < 0.4).astype(int)
-    d[0] = 0
+    T[:3] = tend
+    d[:2] = 0
+    T[3:5] = float(int(tend)) if frac_max else float(tau - 1)
+    d[3] = 0
     return pd.DataFrame({'id': ids, 't': T, 'd': d, 'L': rng.integers(0, 2, size=nsub),
                          'x': np.round(rng.normal(size=nsub), 3)})
 
@@ -814,7 +835,7 @@ def ipcw_flat_cell(chk, drv, df, cfg, dsid, rec):
     lf = ipc.df
     chk.case(case, (dsid, 'IPCW-flat'), sample={'kind': 'IPCW-flat', 'subjects': len(df), 'records': len(lf)}
              if chk.evals % 3 == 0 else None)
-    chk.count('IPCW/flat/%s' % cfg['index'])
+    chk.count('IPCW/flat/%s%s' % (cfg['index'], '/fractional-max' if cfg.get('fractional_max') else ''))
     # D: documented meaning of the expansion, in plain Python
     exp_rows = []
     for i, T, d in sorted(zip(df['id'], df['t'], df['d'])):
@@ -869,24 +890,58 @@ def ipcw_flat_cell(chk, drv, df, cfg, dsid, rec):
         chk.k(ok, 'IPCW _dataprep records and uncensored indicator = Lean model (exact)', dict(case, model=rep.get('status')))
 
 
+def ipcw_malformed(chk, drv, rng):
+    """documented rejections: late entry (first record of a subject after time 1) and maximum time equal to 1"""
+    from zepid.causal.ipw import IPCW
+    for kind in ('late_entry', 'max_time_one', 'valid'):
+        df = long_dataset(rng, frac_last=False)
+        if kind == 'late_entry':
+            i = int(df['id'].iloc[0])
+            df = df[~((df['id'] == i) & (df['t'] == 1.0))]
+            if not (df['id'] == i).any():
+                df = pd.concat([df, pd.DataFrame([(i, 2.0, 0, 0, 0.1)], columns=df.columns)], ignore_index=True)
+        elif kind == 'max_time_one':
+            df = df[df['t'] == 1.0]
+        try:
+            IPCW(df, idvar='id', time='t', event='d')
+            impl = 'ok'
+        except ValueError:
+            impl = 'err'
+        case = {'kind': 'IPCW-malformed', 'what': kind, 'impl': impl}
+        chk.case(case, ('IPCW-malformed', kind, frame_hash(df)))
+        chk.count('IPCW/malformed/' + kind)
+        chk.d((impl == 'err') == (kind != 'valid'), 'IPCW rejects late entry and a maximum time of 1, and nothing else (%s)'
+              % kind, case)
+        if drv is not None:
+            rep, _ = drv.ask('ipcw', id=enc_list(df['id'].tolist(), str), time=enc_list(df['t'].tolist(), rq),
+                             event=bits(df['d'].values == 1))
+            chk.k((rep['status'] == 'err') == (impl == 'err'), 'IPCW rejection = model rejection (%s)' % kind,
+                  dict(case, model=rep['status']))
+
+
 def run_ipcw(chk, drv, rng, tier):
     reps = 10 if tier == 'quick' else 50
     for i in range(reps):
-        base = long_dataset(rng)
+        base = long_dataset(rng, frac_max=(i % 2 == 1))
         for order in ('sorted', 'shuffled'):
             for how in ('default', 'shifted', 'shuffled'):
                 if tier == 'quick' and (i + (order == 'sorted') + ['default', 'shifted', 'shuffled'].index(how)) % 2:
                     continue
                 df = base if order == 'sorted' else base.iloc[rng.permutation(len(base))]
                 df = relabel(df.reset_index(drop=True), rng, how)
+                if i % 3 == 0:     # an unused column with NaN in the caller's frame
+                    df['junk'] = np.where(rng.uniform(size=len(df)) < 0.3, np.nan, 1.5)
                 rec = {'frame': gen.frame_record(df), 'rows': len(df)}
-                cfg = dict(order=order, index=how, denominator='t + L + x', numerator='t')
+                cfg = dict(order=order, index=how, denominator='t + L + x', numerator='t', positional=bool(i % 2),
+                           fractional_max=bool(i % 2 == 1))
                 guard(chk, 'IPCW', cfg, rec, ipcw_cell, drv, df, cfg, frame_hash(df), rec)
     for i in range(6 if tier == 'quick' else 30):
         how = ['default', 'shifted', 'shuffled'][i % 3]
-        df = relabel(flat_dataset(rng), rng, how)
+        df = relabel(flat_dataset(rng, frac_max=(i % 2 == 0)), rng, how)
         rec = {'frame': gen.frame_record(df), 'rows': len(df)}
-        guard(chk, 'IPCW-flat', dict(index=how), rec, ipcw_flat_cell, drv, df, dict(index=how), frame_hash(df), rec)
+        cfg = dict(index=how, fractional_max=bool(i % 2 == 0))
+        guard(chk, 'IPCW-flat', cfg, rec, ipcw_flat_cell, drv, df, cfg, frame_hash(df), rec)
+    guard(chk, 'IPCW-malformed', {}, {}, ipcw_malformed, drv, rng)
 
 
 # ------------------------------------------------------------------------------------------- entry points
